@@ -226,6 +226,10 @@ func genCert(t *rapid.T) CertCase {
 	}
 	c.Serial = rapid.SliceOfN(rapid.Byte(), 1, 20).Draw(t, "serial")
 	c.Serial[0] &= 0x7f
+	if rapid.IntRange(0, 15).Draw(t, "serialEdge") == 0 {
+		// the boundary values of the INTEGER encoding: zero, one octet, high bit set (needs a leading 00)
+		c.Serial = rapid.SampledFrom([][]byte{{0}, {1}, {0x7f}, {0x80}, {0xff}, {0, 0x80, 0}, {0xff, 0xff, 0xff, 0xff, 0xff, 0xff, 0xff, 0xff}}).Draw(t, "serialEdgeV")
+	}
 	c.CN = genName(t, "cn")
 	if rapid.Bool().Draw(t, "hasOrg") {
 		c.Org = []string{genName(t, "org")}
@@ -328,9 +332,6 @@ func (c CertCase) der() ([]byte, error) {
 		SubjectKeyId: c.SKI, AuthorityKeyId: c.AKI,
 		DNSNames: c.DNS, EmailAddresses: c.Emails,
 		SignatureAlgorithm: x509.SignatureAlgorithm(c.SigAlg),
-	}
-	if tpl.SerialNumber.Sign() == 0 {
-		tpl.SerialNumber = big.NewInt(1)
 	}
 	if c.OU != "" {
 		tpl.Subject.OrganizationalUnit = []string{c.OU}
